@@ -49,9 +49,16 @@ def regexpp(regex: Any) -> str:
         "\t": r"\t",
         "\v": r"\v",
         "\f": r"\f",
-        "\b": r"\b",
+        "\b": r"\x08",  # NOTE: \b is the word boundary in a regex
         "\a": r"\a",
         "\0": r"\0",
+        # NOTE: the other line boundaries of str.splitlines()
+        "\x1c": r"\x1c",
+        "\x1d": r"\x1d",
+        "\x1e": r"\x1e",
+        "\x85": r"\x85",
+        "\u2028": r"\u2028",
+        "\u2029": r"\u2029",
     }
 
     result = "".join(ctrl_map.get(c, c) for c in pattern_text)
@@ -60,10 +67,21 @@ def regexpp(regex: Any) -> str:
     if result.endswith("\\") and (len(result) - len(result.rstrip("\\"))) % 2 != 0:
         result += "\\"
 
+    def escape_quote(text: str, quote: str) -> str:
+        # NOTE: a quote is escaped only behind an odd number of backslashes
+        out: list[str] = []
+        backslashes = 0
+        for c in text:
+            if c == quote and backslashes % 2 == 0:
+                out.append("\\")
+            backslashes = backslashes + 1 if c == "\\" else 0
+            out.append(c)
+        return "".join(out)
+
     if result.endswith("'") or result.count("'") > result.count('"'):
-        output = f'r"{re.sub(r'(?<!\\)"', r"\"", result)}"'
+        output = f'r"{escape_quote(result, '"')}"'
     else:
-        output = f"r'{re.sub(r"(?<!\\)'", r"\'", result)}'"
+        output = f"r'{escape_quote(result, "'")}'"
 
     try:
         evaluated = eval(output)  # noqa: S307
